@@ -17,6 +17,7 @@ import PqlModel.Props.C06Placeholders
 import PqlModel.Props.C02ProgramNames
 import PqlModel.Props.C02SplitIR
 import PqlModel.Props.C03JoinCondIR
+import PqlModel.Props.C07OperatorIRTerm
 #print axioms Pql.C02.C02_canAttachSort_table
 #print axioms Pql.C02.C02_top_eq_sort_take
 #print axioms Pql.C02.C02_spec_top
